@@ -148,7 +148,13 @@ ARGSORT_LEAN = "(fun v => PyVec.arange (PyVec.len v))"
 def golden(k) -> list:
     out = []
     for g in GOLDEN.get(k.lean_name, []):
-        args = {n: exact(v) for n, v in g.items()}
+        # the golden inputs are keyed by ROLE (a renamed prelude local must not matter): hoisted values by kind
+        by_role = {"gmin": "min_cost", "gmax": "max_cost", "arange": "etas"}
+        args = {}
+        for n, _, role in k.lean_params:
+            kind, _, what = role.partition(":")
+            if kind != "argsort":
+                args[n] = exact(g[by_role.get(kind, what)])
         res, vals = pyvec.evaluate_px(k, args, argsort=lambda v: list(range(len(v))))
         actual = []
         for n, ty, role in k.lean_params:
